@@ -654,10 +654,8 @@ Ltac now_loop_proof L :=
   let cs := fresh "cs" in let c := fresh "c" in let IH := fresh "IH" in let k := fresh "k" in
   intros cs; induction cs as [|c cs IH]; intros k; [reflexivity|];
   cbn [L map now_loop cert_of nb na]; cbv zeta; unfold time_before, time_after; rewrite Z.gtb_ltb;
-  repeat match goal with
-         | |- context[if negb ?b then _ else _] => destruct b; cbn [negb]; try reflexivity
-         | |- context[if ?b then _ else _] => destruct b; try reflexivity
-         end; apply IH.
+  match goal with |- context[now_loop ?t _ _] =>
+    destruct (t <? nbf c); destruct (naf c <? t); cbn [negb andb orb]; try reflexivity; apply IH end.
 
 Lemma nloop2 K t : forall cs k,
   gen_verifier_verifyTimestamp_loop2 C naf nbf K t cs
@@ -679,9 +677,8 @@ Ltac ts_loop_proof L :=
   intros cs; induction cs as [|c cs IH]; intros k; [reflexivity|];
   cbn [L map ts_loop cert_of nb na]; cbv zeta;
   rewrite (gen_BoundedAfter_equiv add add_plus), (gen_BoundedBefore_equiv add add_plus);
-  repeat match goal with
-         | |- context[if negb ?b then _ else _] => destruct b; cbn [negb]; try reflexivity
-         end; apply IH.
+  match goal with |- context[ts_loop ?lo ?hi _ _] =>
+    destruct (nbf c <=? lo); destruct (hi <=? naf c); cbn [negb andb orb]; try reflexivity; apply IH end.
 
 Lemma tloop3 K ts : forall cs k,
   gen_verifier_verifyTimestamp_loop3 C add naf nbf K ts cs
@@ -953,9 +950,7 @@ Proof.
   - cbn [gen_verifier_verifyAuthenticTimestamp_loop1 map sa_loop]. rewrite Hl. reflexivity.
   - cbn [gen_verifier_verifyAuthenticTimestamp_loop1 map sa_loop cert_of nb na]. cbv zeta.
     unfold time_before, time_after. rewrite Z.gtb_ltb.
-    destruct ((t <? nbf c) || (naf c <? t)).
-    + rewrite Hl. reflexivity.
-    + apply IH.
+    destruct (t <? nbf c); destruct (naf c <? t); cbn [negb andb orb]; rewrite ?Hl; try reflexivity; apply IH.
 Qed.
 
 Lemma gen_vat_rel policy (outcome : ptr (notation_go_VerificationOutcome C)) o env lvl aexp ats :
